@@ -424,7 +424,9 @@ impl Report {
       floors: vec![],
       min_nontrivial: 2,
       extra: BTreeMap::new(),
-      evidence_suffix: String::new(),
+      // secondary stages of a check (release profile, ASan build, replay)
+      // keep their evidence apart from the main run's
+      evidence_suffix: std::env::var("DGV_EVIDENCE_SUFFIX").unwrap_or_default(),
     }
   }
 
